@@ -237,9 +237,9 @@ C10LitQ == << Flt1(LCmp("==", EFn("length", <<ELit(JStr(<<1078, 1078>>))>>), ELi
               Flt1(LCmp("==", EFn("length", <<RelN(cX)>>), EFn("length", <<ELit(JStr(<<26085, 26412, 97>>))>>))),
               Flt1(LCmp("<", EFn("length", <<ELit(JStr(<<233>>))>>), ELit(JInt(2)))) >>
 \* {s: subject, p: pattern} children: the pattern comes from the document
-C10PatDocPats == << <<92, 92, 91, 97, 46, 93>>, <<92, 92, 46>>, <<97, 92, 46, 98>>, <<92, 46>>, <<91, 97, 46, 93>>, <<91, 92, 93, 93>>, <<92, 92>>,
+C10PatDocPats == << <<39, 97, 39>>, <<34, 97>>, <<97, 39>>, <<92, 92, 91, 97, 46, 93>>, <<92, 92, 46>>, <<97, 92, 46, 98>>, <<92, 46>>, <<91, 97, 46, 93>>, <<91, 92, 93, 93>>, <<92, 92>>,
                    <<97, 92, 92, 98>>, <<40, 97, 124, 98, 41, 92, 46>>, <<91, 94, 92, 92, 93>>, <<97, 46, 98>>, <<91>>, <<92>> >>
-C10PatDocSubj == << <<92, 120>>, <<92, 97>>, <<92, 13>>, <<92, 46>>, <<97, 46, 98>>, <<97, 120, 98>>, <<46>>, <<93>>, <<92>>, <<97, 92, 98>>, <<97, 13, 98>>, <<120>>, <<97>> >>
+C10PatDocSubj == << <<39, 97, 39>>, <<34, 97>>, <<97, 39>>, <<92, 120>>, <<92, 97>>, <<92, 13>>, <<92, 46>>, <<97, 46, 98>>, <<97, 120, 98>>, <<46>>, <<93>>, <<92>>, <<97, 92, 98>>, <<97, 13, 98>>, <<120>>, <<97>> >>
 C10PatDoc == JArr(Cross2(C10PatDocSubj, C10PatDocPats, LAMBDA sj, pt : JObj(<<cP, cS>>, <<JStr(pt), JStr(sj)>>)))
 C10PatQ == << Flt1(LTest(FALSE, EFn("match", <<RelN(cS), RelN(cP)>>))), Flt1(LTest(FALSE, EFn("search", <<RelN(cS), RelN(cP)>>))) >>
 C10Docs == <<C10SubjDoc, C10FnDoc, C10PatDoc>>
